@@ -2,9 +2,34 @@
 from ._seq import run_property
 
 
+def translator_validation(chk, results, scs):
+    """random concrete scripts through the interpreter AND the real crate: results against the reference in both, and the
+    final heap structure (bins, list order, complete tree shape and colours) must be identical (tools/validate_translator.py)"""
+    import io, os, sys, contextlib, importlib.util
+    from .. import common as C
+    spec = importlib.util.spec_from_file_location('validate_translator', os.path.join(C.VERIF, 'tools', 'validate_translator.py'))
+    vt = importlib.util.module_from_spec(spec)
+    spec.loader.exec_module(vt)
+    n = 6 if chk.tier == 'quick' else 60
+    buf = io.StringIO()
+    old = sys.argv
+    sys.argv = ['validate_translator.py', str(n), str(C.SEED)]
+    try:
+        with contextlib.redirect_stdout(buf):
+            rc = vt.main()
+    finally:
+        sys.argv = old
+    last = buf.getvalue().strip().split('\n')[-1]
+    chk.coverage['translator_validation'] = last
+    chk.obligation('translator validation: %d random concrete scripts give the same results and the same final heap structure in the interpreter and in the real crate' % n, 'holds' if rc == 0 else 'violated', nontrivial=True)
+    if rc != 0:
+        chk.inconclusive.append('translator validation failed (the interpreter and the real crate disagree): ' + buf.getvalue()[-600:])
+
+
 def run(tier: str) -> int:
     return run_property('C02', tier, 'model_checking',
                         {'operations': 'quick: insert k0; insert k1; then every pair over 13 operation kinds with symbolic keys (universe 3), identity and constant hashers, 2-bin initial table (every second insert resizes), both facades; arbitrary hash function over a universe of 2; scripts of 10 ops across two resizes with guard refresh; 64-bin table with a 10-node tree bin + 2-5 symbolic ops. thorough: + more hashers/capacities, triples over 8 kinds with universe 4, per-step quiescence checks',
                          'keys': 'symbolic 8-bit, constrained to the universe; key instances carry a tag that Eq/Ord/Hash ignore (which instance is kept is checked)',
                          'paths': 'all feasible paths (depth-first by re-execution); the disjunction of the explored path conditions is checked to be valid'},
-                        ['every return value is compared with a reference association list over the same symbolic key terms; a comparison is a solver query under the path condition'])
+                        ['every return value is compared with a reference association list over the same symbolic key terms; a comparison is a solver query under the path condition'],
+                        extra=translator_validation)
